@@ -358,7 +358,7 @@ pub fn run(tier: Tier) -> Report {
     let alpha = alphabet();
     rep.set_rule(&format!("breadth-first search over operation sequences on ids {{1,2,3}} x classes {{0,1}} ({} symbols: add_track, add, fetch, merge_owned (+ failing attribute merge), merge_external, merge_external_noblock+get, lookup, find_usable, clear, shard_stats) with exact de-duplication of model states; every transition is executed on the real TrackStore (fresh store, prefix replayed) and compared with a BTreeMap model: return value, notifications, shard statistics and every shard's contents. Shard counts 1..5. Non-trivial state = at least one stored track.", alpha.len()));
     rep.assume("runs inside the shuttle runtime under the deterministic default schedule; harness attributes/metric of store_h.rs");
-    let depth = tier.pick(3usize, 4usize);
+    let depth = tier.pick(3usize, 5usize);
     let shard_counts: Vec<usize> = tier.pick(vec![1, 2, 3], vec![1, 2, 3, 4, 5]);
     let violated_keys: Arc<Mutex<HashSet<String>>> = Arc::new(Mutex::new(HashSet::new()));
     for &shards in &shard_counts {
